@@ -22,14 +22,22 @@ import (
 // projected result.  No oracle here: nothing below knows which template should match.
 
 type c09Part struct {
-	L *string `json:"l"`
-	V *string `json:"v"`
-	D *string `json:"d"`
+	L  *string   `json:"l"`
+	V  *string   `json:"v"`
+	D  *string   `json:"d"`
+	Mx []c09Part `json:"mx"` // mixed path segment: literal text and variables inside one segment
 }
 
 func (p c09Part) text() string {
 	if p.V != nil {
 		return "{" + *p.V + "}"
+	}
+	if p.Mx != nil {
+		var b strings.Builder
+		for _, q := range p.Mx {
+			b.WriteString(q.text())
+		}
+		return b.String()
 	}
 	if p.L == nil {
 		panic("harness: c09 part without l or v")
@@ -142,9 +150,11 @@ func c09DocJSON(d c09Doc) []byte {
 		item := map[string]any{}
 		params := []any{}
 		for _, s := range t.Segs {
-			if s.V != nil {
-				params = append(params, map[string]any{"name": *s.V, "in": "path", "required": true,
-					"schema": map[string]any{"type": "string"}})
+			for _, q := range append([]c09Part{s}, s.Mx...) {
+				if q.V != nil {
+					params = append(params, map[string]any{"name": *q.V, "in": "path", "required": true,
+						"schema": map[string]any{"type": "string"}})
+				}
 			}
 		}
 		if len(params) > 0 {
